@@ -263,17 +263,53 @@ def check_hidden_state(prog, rep, modules=None, rule='A-state'):
                             n.targets[0].id == key.id]
                     if len(defs) == 1:
                         key_expr = defs[0].value
-                # varying names: parameters of the innermost def and targets
-                # of the enclosing loops
                 inner = model.enclosing_function(prog, mod, iff)
-                inode = inner.node if inner is not None else node
-                varying = {x.arg for x in inode.args.posonlyargs +
-                           inode.args.args + inode.args.kwonlyargs}
+                if inner is not f:
+                    continue            # reported for the innermost def only
+                # the table lives from the statement that creates it: only
+                # what can change between two lookups of THAT table varies --
+                # targets of the loops and parameters of the (nested)
+                # functions between the creation and the memo statement.  A
+                # table that is a parameter / attribute has an unknown
+                # lifetime and is not judged.
+                creator = None
+                fscope = f
+                is_param = False
+                g_ = f
+                while g_ is not None:
+                    if tab in g_.all_params:
+                        is_param = True
+                    g_ = g_.parent
+                if is_param:
+                    continue            # the caller's table
+                while fscope is not None and creator is None:
+                    for n_ in ast.walk(fscope.node):
+                        if isinstance(n_, ast.Assign) and \
+                                isinstance(n_.targets[0], ast.Name) and \
+                                n_.targets[0].id == tab and \
+                                _is_mutable_expr(n_.value) and \
+                                model.enclosing_function(prog, mod, n_) \
+                                is fscope:
+                            creator = (fscope, n_)
+                            break
+                    if creator is None:
+                        fscope = fscope.parent
+                if creator is None:
+                    continue
+                cnode = creator[0].node
+                varying = set()
                 cur = getattr(iff, '_parent', None)
-                while cur is not None and cur is not inode:
+                while cur is not None and cur is not cnode:
                     if isinstance(cur, ast.For):
-                        varying |= {x.id for x in ast.walk(cur.target)
-                                    if isinstance(x, ast.Name)}
+                        # a loop that also (re)creates the table does not
+                        # outlive one iteration
+                        if not any(x is creator[1] for x in ast.walk(cur)):
+                            varying |= {x.id for x in ast.walk(cur.target)
+                                        if isinstance(x, ast.Name)}
+                    if isinstance(cur, (ast.FunctionDef, ast.Lambda)):
+                        a2 = cur.args
+                        varying |= {x.arg for x in a2.posonlyargs + a2.args +
+                                    a2.kwonlyargs}
                     cur = getattr(cur, '_parent', None)
                 varying.discard('self')
                 varying.discard(tab)
@@ -281,12 +317,27 @@ def check_hidden_state(prog, rep, modules=None, rule='A-state'):
                     varying.discard(key.id)
                 need = _varying_atoms(store.value, varying)
                 have = _varying_atoms(key_expr, varying)
-                have_names = {x.id for x in ast.walk(key_expr)
-                              if isinstance(x, ast.Name) and
-                              ast.dump(x) in have}
-                missing = [s for d_, s in need.items() if d_ not in have and
-                           not (isinstance(ast.parse(s, mode='eval').body,
-                                           ast.Name) and s in have_names)]
+                # names that the key contains as plain elements: everything
+                # computed from them alone is determined by the key
+                elts = key_expr.elts if isinstance(key_expr, ast.Tuple) \
+                    else [key_expr]
+                bare = set()
+                for e_ in elts:
+                    while isinstance(e_, ast.Call) and len(e_.args) == 1 and \
+                            isinstance(e_.func, ast.Name) and \
+                            e_.func.id in ('int', 'float', 'str', 'tuple'):
+                        e_ = e_.args[0]
+                    if isinstance(e_, ast.Name):
+                        bare.add(e_.id)
+                missing = []
+                for d_, s_ in need.items():
+                    if d_ in have:
+                        continue
+                    vn = {x.id for x in ast.walk(ast.parse(s_, mode='eval'))
+                          if isinstance(x, ast.Name)} & varying
+                    if vn <= bare:
+                        continue
+                    missing.append(s_)
                 n_sites += 1
                 if missing:
                     rep.violation(
